@@ -634,7 +634,18 @@ func (o *oracle) checkDiff(what, n string, ta, tb *table, got []diffRow, kc kase
 		t, tok := bm[k]
 		differs := fok != tok || !visiblyEqual(ta.Cols, f, tb.Cols, t)
 		if differs && !seen[k] {
-			o.rep.Violate("C32/"+what+"/missing", fmt.Sprintf("%s on %s: key %d differs (from=%v to=%v) but is not reported", what, n, k, f, t), kc)
+			// exactly one input shape is a known dolt defect: a column was dropped between the two
+			// versions AND the stored tuples of this key are byte-equal after trailing-NULL trimming
+			// although the logical rows differ
+			rf, rt, ca, cb := f, t, ta.Cols, tb.Cols
+			if rawA != nil {
+				rf, rt, ca, cb = rawA[k], rawB[k], raw[0].Cols, raw[1].Cols
+			}
+			if fok && tok && tupleAliasAfterDrop(ca, rf, cb, rt) {
+				o.rep.Known(aliasKey, fmt.Sprintf("%s on %s: key %d differs (from=%v to=%v) but is not reported: a column was dropped and the stored tuples of the two versions coincide", what, n, k, rf, rt), kc)
+			} else {
+				o.rep.Violate("C32/"+what+"/missing", fmt.Sprintf("%s on %s: key %d differs (from=%v to=%v) but is not reported", what, n, k, f, t), kc)
+			}
 		}
 	}
 	o.rep.Hit("oracle/C32/" + what)
@@ -663,13 +674,75 @@ func (o *oracle) patchRoundTrip(cur, a, b string, kc kase) {
 		got, _ := im.readRoot("WORKING")
 		o.rep.Hit("oracle/C32/patch-roundtrip")
 		if ok, why := rootEq(got, want, true); !ok {
-			if ok2, _ := rootEq(normCols(got), normCols(want), false); ok2 {
+			if fromRoot, ferr := im.readRoot(a); ferr == nil && aliasExplains(fromRoot, want, got) {
+				o.rep.Known(aliasKey, "executing dolt_patch(a,b) on a leaves a row unchanged that differs in b: a column was dropped and the row's stored tuples coincide, so the diff (and the patch) misses it: "+why, kc)
+			} else if ok2, _ := rootEq(normCols(got), normCols(want), false); ok2 {
 				o.rep.Known("C32/patch-roundtrip/column-order", "executing dolt_patch(a,b) on a gives b's data but not b's column order (a dropped middle column is re-added at the end): "+why, kc)
 			} else {
 				o.rep.Violate("C32/patch-roundtrip/data", "executing dolt_patch(a,b) on a does not give b: "+why, kc)
 			}
 		}
 	})
+}
+
+const aliasKey = "C32/diff-misses-row/stored-tuple-alias-after-drop-column"
+
+func trimNulls(r []string) []string {
+	n := len(r)
+	for n > 0 && r[n-1] == "N" {
+		n--
+	}
+	return r[:n]
+}
+
+// tupleAliasAfterDrop: some column of the from-layout is gone in the to-layout, and the two stored
+// tuples (positional, trailing NULLs not stored) are equal.
+func tupleAliasAfterDrop(ca []col, f []string, cb []col, t []string) bool {
+	dropped := false
+	for _, c := range ca {
+		if colIndex(cb, c) < 0 {
+			dropped = true
+		}
+	}
+	return dropped && f != nil && t != nil && eqCells(trimNulls(f), trimNulls(t))
+}
+
+// aliasExplains: every row in which the patched root differs from the wanted one is a stored-tuple
+// alias across a dropped column between the first commit's table and the second's (and there is one).
+func aliasExplains(from, want, got []*table) bool {
+	found := false
+	if len(want) != len(got) {
+		return false
+	}
+	for i, wt := range want {
+		gt := got[i]
+		if gt.Name != wt.Name || showCols(gt.Cols) != showCols(wt.Cols) || gt.Create != wt.Create {
+			return false
+		}
+		ft := findTable(from, wt.Name)
+		wm, gm := rowMap(wt), rowMap(gt)
+		if len(wm) != len(gm) {
+			return false
+		}
+		for k, wr := range wm {
+			gr, ok := gm[k]
+			if !ok {
+				return false
+			}
+			if eqCells(wr, gr) {
+				continue
+			}
+			if ft == nil {
+				return false
+			}
+			fr, ok := rowMap(ft)[k]
+			if !ok || !tupleAliasAfterDrop(ft.Cols, fr, wt.Cols, wr) {
+				return false
+			}
+			found = true
+		}
+	}
+	return found
 }
 
 // normCols sorts the columns of every table by name (cells permuted accordingly).
@@ -1524,6 +1597,12 @@ func witnesses(rn *runner) {
 		hx.Recover(func() string {
 			rn.runProgram(nil, []string{"create t c1:int c2:int c3:int", "ins t 1 i10 i20 i30", "commitA " + hexS("w1"),
 				"dropcol t c2", "commitA " + hexS("w2"), "revert H"}, 0)
+			return ""
+		})
+		// (3) a dropped column whose value equals the new value of the next column: stored tuples coincide
+		hx.Recover(func() string {
+			rn.runProgram(nil, []string{"create t c1:int c2:int", "ins t 1 i5 N", "ins t 2 i7 i8", "commitA " + hexS("w1"),
+				"dropcol t c1", "upd t 1 c2 i5", "commitA " + hexS("w2")}, 0)
 			return ""
 		})
 		ops = []string{"create t c1:int", "ins t 1 i10", "commitA " + hexS("w1"), "branch b1 H", "ins t 2 i20", "commita " + hexS("w2"),
